@@ -1169,6 +1169,46 @@ def via_model(obj, oo):
         obj.apply_overrides(oo)
 
 
+def apply_together(obj, ovs, sigs, problems):
+    """one Model.add_overrides call whose block holds one labelled entry per override dict, all naming the same node or arc
+    (entries are keyed by free labels and applied in the order listed); False when the component is neither"""
+    import contextlib
+    import io
+    import warnings
+    from wsimod.arcs.arcs import Arc
+    from wsimod.nodes.nodes import Node
+    from wsimod.orchestration.model import Model
+    if not isinstance(obj, (Node, Arc)):
+        return False
+    m = Model()
+    if isinstance(obj, Node):
+        m.add_instantiated_nodes([obj])
+        ty = next(t for t, d in m.nodes_type.items() if obj.name in d)
+        block = {"nodes": {f"entry{i}": dict(resolve(None, o), name=obj.name, type_=ty) for i, o in enumerate(ovs)}}
+    else:
+        m.arcs[obj.name] = obj
+        block = {"arcs": {f"entry{i}": dict(resolve(None, o), name=obj.name, type_=type(obj).__name__) for i, o in enumerate(ovs)}}
+    buf = io.StringIO()
+    try:
+        with contextlib.redirect_stdout(buf), warnings.catch_warnings():
+            warnings.simplefilter("ignore")
+            m.add_overrides(block)
+    except RuntimeError as ex:
+        did = getattr(obj, "data_input_dict", None)
+        if "Not recognised format for data_input_dict" in str(ex) and isinstance(did, dict) and did:
+            sigs.add("node-data-input-dict-runtimeerror")
+            # (the block stops at the entry that raised: the rest is applied one by one, as the other cases do)
+            for o in ovs[1:]:
+                apply(obj, o, sigs, problems, "first application")
+        else:
+            problems.append(f"one overrides block with {len(ovs)} entries: add_overrides raised {err_text(ex)}")
+    except Exception as ex:
+        problems.append(f"one overrides block with {len(ovs)} entries: add_overrides raised {err_text(ex)}")
+    if "No override behaviour defined" in buf.getvalue():
+        problems.append(f"one overrides block: add_overrides did not consume {buf.getvalue().strip()[:120]}")
+    return True
+
+
 def apply(obj, o, sigs, problems, label):
     import io
     import contextlib
@@ -1376,9 +1416,14 @@ def run_pass(case, spec, controls, pristine, exact, script, tol):
         # nodes and arcs travel through Model.add_overrides (an `overrides:` block), for the rest they go to the component
         VIA_MODEL[0] = bool(case.get("via_model"))
         q = p
-        for o in ovs:
-            apply(a.target, o, sigs, problems, "first application")
-            q = merge(spec, q, o)
+        if VIA_MODEL[0] and len(ovs) >= 2 and apply_together(a.target, ovs, sigs, problems):
+            # (both override dicts as two labelled entries of ONE overrides block naming the same component)
+            for o in ovs:
+                q = merge(spec, q, o)
+        else:
+            for o in ovs:
+                apply(a.target, o, sigs, problems, "first application")
+                q = merge(spec, q, o)
         for o in ovs[:-1]:
             apply(b.target, o, sigs, problems, "first application")
         pics = []
